@@ -20,6 +20,12 @@ def run(rep, tier):
         for tn in names:
             jobs.append({"schema": sdl, "queries": "query Q { ping }", "config": {"convert_to_snake_case": snake}, "types": [tn], "known": rep._known,
                          "depth": 2, "L": 2})
+    # configured custom scalars (type str + serialize, type int): the model must accept exactly null-where-nullable and values of the type
+    sdl2, scal, dom = corpus.inputs_scalar_schema(depth)
+    for snake in (True, False):
+        for tn in ("WStamp", "WHex", "MixS"):
+            jobs.append({"schema": sdl2, "queries": "query Q { ping }", "config": {"convert_to_snake_case": snake, "scalars": scal}, "types": [tn], "known": rep._known,
+                         "depth": 2, "L": 2, "scalar_domain": dom})
     results = gen.pmap(ezin_check.analyze_inputs, jobs)
     progs = types = nodes = 0
     for job, r in zip(jobs, results):
